@@ -425,7 +425,7 @@ def operator_call(tr, opname, ops, n, callee):
             if ct.elem.klass == 'str' and k1 != 'str':
                 return '(%s = (%s){1, %s})' % (lhs, ct.c, construct_from(tr, ct.elem, ops[1:], n))
             return '(%s = (%s){1, %s})' % (lhs, ct.c, tr.e(ops[1]))
-        if k0 in ('sv', 'agg', 'url', 'comp', 'pair', 'arr', 'u32sv', 'usp') and k1 == k0:
+        if k0 in ('sv', 'agg', 'url', 'comp', 'pair', 'arr', 'u32sv', 'usp', 'result') and k1 == k0:
             return '(%s = %s)' % (lhs, tr.e(ops[1]))
         if k0 == 'sv' and k1 in ('str',):
             return '(%s = %s)' % (lhs, as_sv(tr, ops[1]))
